@@ -13,7 +13,8 @@ Headers
       `cliques`                    → canonical (sorted) result for the identity order
       `bk p0 p1 …`                 → exact result of BronKerbosch([], P, P[:0]) + final array
       `bkx r… | p… | x…`           → exact result of BronKerbosch(R, P, X) on separate slices
-Tie-breakers `brk`: `nil` (none passed), `t`, `f`, `lt`, `le`, `lex`, `h<k>` (hash parity).
+Tie-breakers `brk`: `nil` (none passed), `t`, `f`, `lt`, `le` (prefer fewer), `gt`, `ge` (prefer
+more), `lex`, `xel` (lexicographically smaller / larger ids), `h<k>` (hash parity).
 Iteration orders of the Go maps are derived from `seed` (the observables printed are
 order-independent; that is what the theorems say and what the Go side relies on).
 -/
@@ -21,6 +22,7 @@ import Golib.Proto
 import Golib.Model.C18Knap
 import Golib.Model.C18Solv
 import Golib.Model.C18Graph
+import Golib.Model.C18GraphApi
 
 namespace Golib.C18
 open Golib.Proto
@@ -50,6 +52,9 @@ def parseBrk (s : String) : Option (Option (List Item → List Item → Bool)) :
   else if s = "f" then some (some fun _ _ => false)
   else if s = "lt" then some (some fun o n => decide (n.length < o.length))
   else if s = "le" then some (some fun o n => decide (n.length ≤ o.length))
+  else if s = "gt" then some (some fun o n => decide (n.length > o.length))
+  else if s = "ge" then some (some fun o n => decide (n.length ≥ o.length))
+  else if s = "xel" then some (some fun o n => lexLt (ids o) (ids n))
   else if s = "lex" then some (some fun o n => lexLt (ids n) (ids o))
   else if s.startsWith "h" then
     match (s.drop 1).toString.toNat? with
@@ -150,19 +155,28 @@ def mapOp (keys : List Int) (ts : List String) : Option (Option String) :=
 
 /-! ### graph cases -/
 
-def parseEdge (n : Nat) (s : String) : Option (List (Nat × Nat)) :=
+/-- An edge token is a construction call: `a-b` = `AddUndirectedEdge(a, b)`, `a>b` = `AddEdge(a, b)`. -/
+def parseEdgeOp (n : Nat) (s : String) : Option GOp :=
   match s.splitOn "-" with
   | [a, b] =>
     match a.toNat?, b.toNat? with
-    | some a, some b => if a < n ∧ b < n ∧ a ≠ b then some [(a, b), (b, a)] else none
+    | some a, some b => if a < n ∧ b < n ∧ a ≠ b then some (.addUndirected a b) else none
     | _, _ => none
   | _ =>
     match s.splitOn ">" with
     | [a, b] =>
       match a.toNat?, b.toNat? with
-      | some a, some b => if a < n ∧ b < n ∧ a ≠ b then some [(a, b)] else none
+      | some a, some b => if a < n ∧ b < n ∧ a ≠ b then some (.addEdge a b) else none
       | _, _ => none
     | _ => none
+
+/-- The arcs a construction call contributes (`Golib.C18.GOp.arc` as a list). -/
+def arcsOf : GOp → List (Nat × Nat)
+  | .addNode _ => []
+  | .addEdge a b => [(a, b)]
+  | .addUndirected a b => [(a, b), (b, a)]
+
+def parseEdge (n : Nat) (s : String) : Option (List (Nat × Nat)) := (parseEdgeOp n s).map arcsOf
 
 def parseEdges (n : Nat) : List String → Option (List (Nat × Nat))
   | [] => some []
